@@ -151,6 +151,8 @@ def run(rep):
             if c[0] in ('and', 'or', 'not'):
                 from .c03 import _bool
                 return _bool(c, oracle)
+            if c[0] == 'num':
+                return c[1] != 0
             if c[0] == 'cmp' and _const(c[2]) and _const(c[3]):
                 a_, b_ = Canon().ratio(c[2]).cval(), Canon().ratio(c[3]).cval()
                 return {'<': a_ < b_, '<=': a_ <= b_, '>': a_ > b_, '>=': a_ >= b_, '==': a_ == b_, '!=': a_ != b_}.get(c[1])
@@ -315,7 +317,7 @@ def run(rep):
     okadv = bool(ends) and all(cq.same_expr(f_[0].get(T1, num(0)), "varsec[VI0+1]") and cq.same_expr(f_[0].get(V1, num(0)), "varvalues[VI0+1]") and
                                cq.same_expr(f_[0].get("varindex", num(0)), "VI0+1") for f_ in ends)
     rep.check(okadv, "R14.b", file, "c_var2h", "intervals are consecutive observation pairs: (t1, val1) <- (t2, val2), index advanced by one", "", line=wl.get("_line"))
-    wce = cq.evaluate(wstm)
+    wce = cq.evaluate(wstm, maxpaths=20000)
     errs = [r for r in wce.returns if isinstance(r[0], tuple) and not cq.same_expr(r[0], "0") and cq.holds(r[1], f"{T2} < {T1}", False)]
     rep.check(bool(errs), "R14.b", file, "c_var2h", "decreasing time stamps are an error", "", line=wl.get("_line"))
     # ---- store after the loop
